@@ -2486,11 +2486,13 @@ class Processor:
                 data=data, footer=" ")
 
             # The next element may not exist; this method ensures that it does
+            # Gather this segment's matches before descending:  deeper
+            # segments may add nodes to the very Hash or Array being scanned
             matched_nodes = 0
-            for next_coord in self._get_nodes_by_path_segment(
+            for next_coord in list(self._get_nodes_by_path_segment(
                 data, yaml_path, depth, parent=parent, parentref=parentref,
                 translated_path=translated_path, ancestry=ancestry
-            ):
+            )):
                 matched_nodes += 1
                 if isinstance(next_coord, list):
                     # Drill into Collector results
